@@ -609,7 +609,9 @@ class SqueezeOperator(LinearOperator):
                         shp.append(ss)
                         if isinstance(d, RGSpace):
                             dst.append(d.distances[ii])
-                if isinstance(d, RGSpace):
+                if len(shp) == 0 and isinstance(d, RGSpace):
+                    pass  # All axes have length one: the space is removed
+                elif isinstance(d, RGSpace):
                     tgt.append(RGSpace(shp, dst, d.harmonic))
                 else:
                     tgt.append(UnstructuredDomain(shp))
